@@ -93,7 +93,7 @@ def runCase (tol : Bool) (ors : List Char) (toks : List String) (prog : List Stm
   if !aborted then out := out.push s!"S {i} {showChain s.chain}"
   let s2 := flushall ρ s
   out := out ++ (newEvents s s2).toArray
-  out := out.push (if aborted then "L err" else "L ok")
+  out := out.push (if aborted || flushallFails ρ s.chain s.calls then "L err" else "L ok")
   out := out.push s!"Z {showChain s2.chain}"
   let s3 := clearall ρ s2
   out := out ++ (newEvents s2 s3).toArray
